@@ -18,10 +18,11 @@
    Navigation: C03_position*, C03_walk_preorder, C03_dfs_ids_preorder, C03_iter_dfs*, C03_no_fuel_*.
    Stale handles: C03_live_or_detached, C03_detached_not_live, C03_stale*, (DetFiles = detached chains carry no local
    file sets; needed only by the four requests that ask for min_version and not for the model).
-   Partial: the drains of ElementsIterator / ArxmlFileElementsDfsIterator are modelled and executed (Examples) but
-   their general theorems are not proved here; DetFiles is a hypothesis, its preservation is not proved. *)
+   Iterators: C03_iter_dfs (element- and model-scoped, every max_depth), C03_iter_sub_elements, C03_iter_file.
+   Partial: DetFiles is a hypothesis of C03_stale for the four min_version-only requests. *)
 From AV Require Import Base.Bytes Base.Outcome Hash.HashModel Tree.Heap Tree.Ops Tree.Script Tree.Inv Tree.Iter
-  Tree.InvProofsTree Tree.InvProofsNav Tree.InvProofs Tree.StaleProofs Tree.IterProofs Tree.InvExamples.
+  Tree.InvProofsTree Tree.InvProofsNav Tree.InvProofs Tree.StaleProofs Tree.IterProofs Tree.IterProofsFile
+  Tree.InvExamples.
 Open Scope string_scope.
 Open Scope list_scope.
 Open Scope N_scope.
@@ -105,6 +106,18 @@ Theorem C03_iter_dfs_unlimited :
     exists l f0, (forall f, (f0 <= f)%nat -> elements_dfs f i 0 w = Val l) /\
                  Pre w i (map snd l) /\ NoDup (map snd l) /\ forall x, In x (map snd l) <-> Reach w i x.
 Proof. exact dfs_iter_unlimited. Qed.
+
+Theorem C03_iter_sub_elements :
+  forall (w : world) (e : id) (n : node), Core w -> w_nodes w e = Some n ->
+    forall f, (List.length (kids n) + 1 <= f)%nat -> ei_drain f (ei_new e) w = Val (kids n).
+Proof. exact ei_iter_spec. Qed.
+
+Theorem C03_iter_file :
+  forall (w : world) (file max : N) (fl : Heap.file) (x : model), Core w ->
+    nth_opt (w_files w) (N.to_nat file) = Some fl -> nth_opt (w_models w) (N.to_nat (f_model fl)) = Some x ->
+    exists l f0, PreF w (lim_of max) file 0 (m_root x) l /\
+                 forall f, (f0 <= f)%nat -> file_elements_dfs f file max w = Val l.
+Proof. exact fi_iter_spec. Qed.
 
 Theorem C03_no_fuel_model :
   forall (w : world) (i : id), Core w -> allocated w i -> model_of i w <> Fuel.
